@@ -63,6 +63,27 @@ func genC16(t *rapid.T) *CaseC16 {
 		n = len(c.C04.Boxes)
 	case "overlap":
 		c.C05 = genC05(t)
+		if rapid.Bool().Draw(t, "nestedInList") {
+			// nesting inside the first list: a fine voxel G, its ancestor F and a voxel X that meets F outside G (the
+			// only overlapping pair is (F, X)); the answer must not depend on whether G or F is listed first
+			var f ref.Box
+			if c.C05.Spatial {
+				f = genSpatialBox(t, "nf")
+				f.H, f.V = min64(f.H, 32), min64(f.H, 32)
+				n := int64(1) << uint(f.H)
+				f.X, f.Y, f.F = f.X%n, f.Y%n, clamp64(f.F, -n/2, n/2-1)
+			} else {
+				f = genBoxAt(t, "nf", genZoom(t, "nfh", 0, 32), genZoom(t, "nfv", 0, 32))
+			}
+			d := rapid.Int64Range(1, 3).Draw(t, "nd")
+			g := ref.Box{H: f.H + d, X: f.X << uint(d), Y: f.Y << uint(d), V: f.V + d, F: f.F << uint(d)}
+			x := ref.Box{H: f.H + d, X: f.X<<uint(d) + 1, Y: f.Y<<uint(d) + (int64(1) << uint(d)) - 1, V: f.V + d, F: f.F<<uint(d) + (int64(1) << uint(d)) - 1}
+			c.C05.A = append([]ref.Box{g, f}, c.C05.A...)
+			if len(c.C05.A) > 4 {
+				c.C05.A = c.C05.A[:4]
+			}
+			c.C05.B = []ref.Box{x}
+		}
 		n, n2 = len(c.C05.A), len(c.C05.B)
 	case "line":
 		c.C06 = genC06(t)
